@@ -730,13 +730,23 @@ impl Driver {
             }
             let (Some(st), Some(ap)) = (self.storage_rc.clone(), self.app_set.clone()) else { return false };
             let w = self.w.clone();
+            // two kinds of embedder action: storage, one step, app set (the library's order); or just the app
+            // set, kept for one step (e.g. a channel change being applied)
+            let only_app_set = rng.bool();
             self.embedder = Some(Box::pin(async move {
-                let s = st.lock().await;
-                YieldOnce(false).await;
-                let a = ap.lock().await;
-                lock(&w).push(Ev::EmbedderTouched);
-                drop(a);
-                drop(s);
+                if only_app_set {
+                    let a = ap.lock().await;
+                    YieldOnce(false).await;
+                    lock(&w).push(Ev::EmbedderTouched);
+                    drop(a);
+                } else {
+                    let s = st.lock().await;
+                    YieldOnce(false).await;
+                    let a = ap.lock().await;
+                    lock(&w).push(Ev::EmbedderTouched);
+                    drop(a);
+                    drop(s);
+                }
             }));
         }
         let wk = futures::task::noop_waker();
